@@ -183,16 +183,35 @@ def run_chunk(ctx, name, k, reqs, budget_ms):
             if p.returncode > 0 or (not outs and p.returncode == 0):
                 raise common.ToolError("vh-feaparse failed (rc %d): %s" % (p.returncode, p.stderr[-400:]))
             outs = outs[: len(reqs) - start]
-            for n, o in enumerate(outs):
-                if o.get("rec", -1) > 0:
-                    o["rec"] += nrec
-                results[start + n] = o
+            # records of this process, whole lines only: a process that died may leave a partial last line, and
+            # nothing malformed may reach TLC
+            good = {}
             if os.path.exists(tr):
                 with open(tr, newline="\n") as f:
                     for line in f:
-                        nrec += 1
-                        mf.write('{"i":%d,%s' % (nrec, line[line.index(",") + 1:]))
+                        m = re.match(r'\{"i":(\d+),', line)
+                        if not (m and line.endswith("}\n")):
+                            continue
+                        good[int(m.group(1))] = line
                 os.remove(tr)
+            if good:
+                last = max(good)
+                try:
+                    json.loads(good[last])
+                except ValueError:
+                    del good[last]
+            for n, o in enumerate(outs):
+                r = o.get("rec", -1)
+                if r > 0:
+                    if r in good:
+                        nrec += 1
+                        line = good[r]
+                        mf.write('{"i":%d,%s' % (nrec, line[line.index(",") + 1:]))
+                        o["rec"] = nrec
+                    else:
+                        o["rec"] = -1          # its record was lost with the process: not validated
+                        o["record_lost"] = True
+                results[start + n] = o
             os.remove(inp)
             part += 1
             done = start + len(outs)
@@ -320,6 +339,8 @@ class Runner:
         if oc == "ok":
             st["ok"] += 1
             st["events_validated"] += o.get("nev", 0) if o.get("rec", -1) > 0 else 0
+            if o.get("record_lost"):
+                st["records_lost_with_a_dead_process"] = st.get("records_lost_with_a_dead_process", 0) + 1
             if o.get("has_errors"):
                 st["with_errors"] += 1
             v = o.get("validate")
@@ -336,7 +357,7 @@ class Runner:
             if str(o.get("format", "ok")).startswith("panic"):
                 st["format_panics"] += 1
                 ctx.drift("diagnostic-format", "formatting the diagnostics of %s panicked: %s" % (show(q), o["format"][:200]))
-            if o.get("concat_ok") is False and not o.get("rejected"):
+            if o.get("concat_ok") is False and not o.get("rejected") and o.get("rec", -1) > 0:
                 raise common.ToolError("harness says token text != input but TLC accepted the trace: %s" % show(q))
             if o.get("concat_ok") is True and set(o.get("rejected", [])) & {"TokenText", "TokenInside", "EndConsumed"}:
                 raise common.ToolError("TLC rejected the token texts of a tree whose concatenation equals the input: %s" % show(q))
@@ -397,7 +418,7 @@ class Runner:
             elif o2.get("outcome") == "crash":
                 self.find.add("crash:%s:rc=%s" % (q["op"], o2.get("rc")),
                               "the process died (rc %s, %s) while parsing; input %s" %
-                              (o2.get("rc"), (o2.get("message") or "")[-120:], show(q)), q, size)
+                              (o2.get("rc"), " ".join((o2.get("message") or "").split())[-160:], show(q)), q, size)
             else:
                 o.clear()
                 o.update(o2)
